@@ -144,7 +144,7 @@ func init() {
 		"that ucmp's zero-padding loop compares the right words (loop arithmetic)",
 		techCDAI, cdaiAssume, fxAssume)
 	p("C17",
-		[]string{"GOB", "FX-STICKY@GobDecode", "FX-OWN@GobDecode"},
+		[]string{"GOB", "FX-OWN@GobDecode"},
 		[]string{
 			"GOB G1: every buf[k], buf[k:] and fixed-width read in GobDecode is dominated by a comparison establishing len(buf) >= what it needs (no panic on truncated input).",
 			"G2: the decoded mode, accuracy and form are compared with the largest enumerator before being stored; the decoded mantissa is rejected unless non-empty, normalised (top word >= base/10), every word < base (a test inside a loop over the mantissa whose header dominates the store) and its digit count fits the decoded precision (so finite implies precision > 0); it is decoded into a fresh buffer.",
